@@ -12,6 +12,7 @@ mod gen;
 mod mon;
 mod iterhist;
 mod mk;
+mod walk;
 mod drivers;
 
 use std::collections::{BTreeMap, HashSet};
@@ -57,13 +58,15 @@ fn main() {
         notes: BTreeMap::new(),
         inconclusive: Vec::new(),
         case_no: 0,
+        budget: get("budget", "0").parse().unwrap_or(0),
+        budget_hit: false,
     };
     if ctx.nshards == 0 { ctx.nshards = 1; }
 
     util::install_panic_hook();
 
     // Oracle self-test first: an oracle bug must not surface as an alarm on the library.
-    let rounds = if cfg!(miri) { 30 } else { 600 };
+    let rounds = if cfg!(miri) { 5 } else { 600 };
     match models::self_test(ctx.seed, rounds) {
         Ok(n) => ctx.count("model_selftest_comparisons", n),
         Err(e) => {
